@@ -4,7 +4,9 @@ import Capnp.Spec.Canon
 
 `Spec.Canon.canon` is the canonicalisation section of the encoding spec as a function of the value
 tree alone, so it cannot depend on segment placement or pointer kinds.  Proved here: schema-version
-padding (trailing null pointers, trailing zero words) does not change it, capabilities are rejected.
+padding (trailing null pointers, trailing zero data words: `canon_struct_pad`, for every struct, every
+amount of padding, at any depth via `canonPtr_struct_pad`) does not change it; truncation is idempotent
+and never leaves a trailing zero word / null pointer (`trunc*_idem`, `trunc*_last`); capabilities are rejected.
 That `Canonicalize` computes `canon`, that the result decodes to an equal value, and that
 canonicalising twice is the identity are decided by the S-stream of the C18 check.
 -/
@@ -50,6 +52,93 @@ theorem canonPtrs_cap_none (f : Nat) (ps qs : List Val) (i : Nat) (out : List Na
     cases h : canonPtr f p out pw with
     | none => rfl
     | some out1 => exact ih out1 (pw + 1)
+
+/-- the data section cut into zero-padded words, as `truncData` does -/
+def wordsOf (d : List Nat) : List (List Nat) :=
+  ((List.range ((d.length + 7) / 8)).map (fun w => (d.drop (8 * w)).take 8)).map
+    (fun w => w ++ List.replicate (8 - w.length) 0)
+
+theorem truncData_eq (d : List Nat) : truncData d = (truncWords (wordsOf d)).flatten := rfl
+
+theorem wordsOf_pad (d : List Nat) (m k : Nat) (hd : d.length = 8 * m) :
+    wordsOf (d ++ List.replicate (8 * k) 0) = wordsOf d ++ List.replicate k (List.replicate 8 0) := by
+  apply List.ext_getElem
+  · simp [wordsOf, hd]; omega
+  · intro i h1 h2
+    simp only [wordsOf, List.length_map, List.length_range, List.length_append, List.length_replicate, hd] at h1
+    have hi : i < m + k := by omega
+    simp only [wordsOf, List.getElem_map, List.getElem_range]
+    by_cases hlt : i < m
+    · rw [List.getElem_append_left (by simp [hd]; omega)]
+      simp only [List.getElem_map, List.getElem_range]
+      have : (List.drop (8 * i) (d ++ List.replicate (8 * k) 0)).take 8 = (List.drop (8 * i) d).take 8 := by
+        rw [List.drop_append_of_le_length (by omega), List.take_append_of_le_length (by simp; omega)]
+      rw [this]
+    · rw [List.getElem_append_right (by simp [hd]; omega)]
+      simp only [List.getElem_replicate]
+      have : (List.drop (8 * i) (d ++ List.replicate (8 * k) 0)).take 8 = List.replicate 8 0 := by
+        rw [List.drop_append, List.drop_eq_nil_of_le (by omega), List.nil_append, List.drop_replicate,
+          List.take_replicate]
+        congr 1; omega
+      rw [this]; simp
+
+/-- trailing zero data words (fields added by a newer schema, unset) do not change the truncated data section -/
+theorem truncData_pad (d : List Nat) (m k : Nat) (hd : d.length = 8 * m) :
+    truncData (d ++ List.replicate (8 * k) 0) = truncData d := by
+  rw [truncData_eq, truncData_eq, wordsOf_pad d m k hd, truncWords_pad]
+
+/-- **layout independence under schema evolution**: a struct written by a newer schema version (k extra zero
+    data words, j extra null pointers) has the same canonical encoding as the one written by the older version -/
+theorem canonPtr_struct_pad (f : Nat) (d : List Nat) (ps : List Val) (m k j : Nat) (hd : d.length = 8 * m)
+    (out : List Nat) (pw : Nat) :
+    canonPtr (f + 1) (.struct (d ++ List.replicate (8 * k) 0) (ps ++ List.replicate j .null)) out pw
+      = canonPtr (f + 1) (.struct d ps) out pw := by
+  simp only [canonPtr, truncPtrs_pad, truncData_pad d m k hd]
+
+theorem canon_struct_pad (d : List Nat) (ps : List Val) (m k j : Nat) (hd : d.length = 8 * m) :
+    canon (.struct (d ++ List.replicate (8 * k) 0) (ps ++ List.replicate j .null)) = canon (.struct d ps) := by
+  simp only [canon]; exact canonPtr_struct_pad 199 d ps m k j hd _ _
+
+/-! ## truncation is idempotent and leaves no trailing zero word / null pointer -/
+
+theorem revDrop_idem {α} (p : α → Bool) (l : List α) :
+    (((l.reverse.dropWhile p).reverse).reverse.dropWhile p).reverse = (l.reverse.dropWhile p).reverse := by
+  rw [List.reverse_reverse]
+  congr 1
+  generalize l.reverse = r
+  induction r with
+  | nil => rfl
+  | cons x r ih =>
+    by_cases hx : p x = true
+    · simp [hx, ih]
+    · simp [hx]
+
+theorem truncPtrs_idem (ps : List Val) : truncPtrs (truncPtrs ps) = truncPtrs ps := revDrop_idem _ _
+theorem truncWords_idem (ws : List (List Nat)) : truncWords (truncWords ws) = truncWords ws := revDrop_idem _ _
+
+theorem revDrop_getLast {α} (p : α → Bool) (l : List α) (x : α)
+    (h : ((l.reverse.dropWhile p).reverse).getLast? = some x) : p x = false := by
+  rw [List.getLast?_reverse] at h
+  generalize l.reverse = r at h
+  induction r with
+  | nil => simp at h
+  | cons y r ih =>
+    by_cases hy : p y = true
+    · simp [hy] at h; exact ih h
+    · simp [hy] at h; subst h; simpa using hy
+
+/-- canonical structs never end in a null pointer -/
+theorem truncPtrs_last (ps : List Val) (v : Val) (h : (truncPtrs ps).getLast? = some v) : isNullV v = false :=
+  revDrop_getLast _ _ _ h
+/-- canonical data sections never end in an all-zero word -/
+theorem truncWords_last (ws : List (List Nat)) (w : List Nat) (h : (truncWords ws).getLast? = some w) :
+    w.all (· == 0) = false := revDrop_getLast (fun w : List Nat => w.all (· == 0)) ws w h
+
+-- non-vacuity: a two-word data section padded by one zero word, one pointer padded by two nulls
+example : canon (.struct ([1,0,0,0,0,0,0,0] ++ List.replicate (8 * 1) 0) ([.struct [5,0,0,0,0,0,0,0] []] ++ List.replicate 2 .null))
+    = canon (.struct [1,0,0,0,0,0,0,0] [.struct [5,0,0,0,0,0,0,0] []]) := canon_struct_pad _ _ 1 1 2 rfl
+example : truncPtrs [.cap 1, .null, .null] = [.cap 1] := by simp [truncPtrs, List.dropWhile, isNullV]
+
 
 -- non-vacuity
 example : canon (.struct [] [.cap 3]) = none := by simp [canon, canonPtr, truncData, truncPtrs, isNullV, canonPtrs]
